@@ -588,11 +588,11 @@ fn generate(rng: &mut Rng, n: u64, tier: &str, emit: &mut dyn FnMut(Vec<String>)
                     }
                     emit(mk(op, prev, fr(&v), "none".into(), true && op == "put_object", false));
                 }
-                let maxp = if thorough { 40 } else { 24 };
+                let maxp = if thorough { 16 } else { 12 };
                 if fs.len() <= 3 || thorough {
                     for p in 1..=maxp {
                         emit(mk(op, prev, fr(fs), format!("drop-woken:{p}"), op == "put_object", false));
-                        if p <= 16 || thorough {
+                        if p <= 10 || thorough {
                             emit(mk(op, prev, fr(fs), format!("drop-inflight:{p}"), op == "put_object", false));
                         }
                     }
@@ -622,7 +622,7 @@ fn generate(rng: &mut Rng, n: u64, tier: &str, emit: &mut dyn FnMut(Vec<String>)
             emit(mk("complete_multipart_upload", prev, fr(&[Some(a)]), "destdir".into(), hasmeta, false));
             emit(mk("complete_multipart_upload", prev, fr(&[Some(a)]), "metafail".into(), hasmeta, false));
         }
-        let maxp = if thorough { 40 } else { 26 };
+        let maxp = if thorough { 20 } else { 14 };
         for p in 1..=maxp {
             emit(mk("complete_multipart_upload", prev, fr(&[Some(a)]), format!("drop-woken:{p}"), true, false));
             emit(mk("complete_multipart_upload", prev, fr(&[Some(a)]), format!("drop-inflight:{p}"), true, false));
